@@ -21,6 +21,7 @@ import (
 	"io"
 	"os"
 	"path/filepath"
+	"reflect"
 	"sort"
 	"strconv"
 	"strings"
@@ -35,6 +36,7 @@ import (
 	"oras.land/oras-go/v2"
 	"oras.land/oras-go/v2/content/memory"
 	"oras.land/oras-go/v2/content/oci"
+	orasreg "oras.land/oras-go/v2/registry"
 )
 
 // hand-written constants (not taken from the code under test)
@@ -188,6 +190,26 @@ func (l *looseTarget) Predecessors(c context.Context, node ocispec.Descriptor) (
 	return out, nil
 }
 
+// pagedTarget offers the referrers API itself (as a remote repository does): ListSignatures
+// delegates to it, and the answer is delivered in pages of one descriptor.
+type pagedTarget struct {
+	oras.GraphTarget
+}
+
+func (p *pagedTarget) Referrers(c context.Context, desc ocispec.Descriptor, artifactType string, fn func([]ocispec.Descriptor) error) error {
+	all, err := orasreg.Referrers(c, p.GraphTarget, desc, artifactType)
+	if err != nil {
+		return err
+	}
+	sort.Slice(all, func(i, j int) bool { return all[i].Digest < all[j].Digest })
+	for i := range all {
+		if err := fn(all[i : i+1]); err != nil {
+			return err
+		}
+	}
+	return nil
+}
+
 // logTarget counts Fetch calls per digest.
 type logTarget struct {
 	oras.GraphTarget
@@ -263,6 +285,10 @@ func newWorld(kind, dir string) (*world, error) {
 		st := memory.New()
 		w.target = st
 		w.repo = registry.NewRepository(st)
+	case "paged":
+		pt := &pagedTarget{GraphTarget: memory.New()}
+		w.target = pt
+		w.repo = registry.NewRepository(pt)
 	case "loose":
 		loose = &looseTarget{GraphTarget: memory.New(), alias: map[digest.Digest][]ocispec.Descriptor{}}
 		w.target = loose
@@ -310,9 +336,15 @@ func envelope(step int, tag string) []byte {
 }
 
 func annotationsFor(step int) map[string]string {
-	switch step % 4 {
+	// every variant differs from every other one: other values for the same key, keys present on one push only
+	switch step % 5 {
 	case 0:
 		return nil
+	case 4:
+		return map[string]string{
+			"io.cncf.notary.x509chain.thumbprint#S256":       fmt.Sprintf(`["%064x"]`, 1000+step),
+			fmt.Sprintf("example.org/only-on-push-%d", step): "x",
+		}
 	case 1:
 		return map[string]string{"io.cncf.notary.x509chain.thumbprint#S256": fmt.Sprintf(`["%064x"]`, step+1)}
 	case 2:
@@ -332,6 +364,35 @@ func sortedKeys(m map[string]string) []string {
 	}
 	sort.Strings(ks)
 	return ks
+}
+
+func mapsEqual(a, b map[string]string) bool {
+	if len(a) != len(b) {
+		return false
+	}
+	for k, v := range a {
+		if w, ok := b[k]; !ok || w != v {
+			return false
+		}
+	}
+	return true
+}
+
+func showMap(m map[string]string) string {
+	var sb strings.Builder
+	sb.WriteByte('{')
+	for i, k := range sortedKeys(m) {
+		if i > 0 {
+			sb.WriteString(", ")
+		}
+		v := m[k]
+		if len(v) > 24 {
+			v = v[:10] + "…" + v[len(v)-10:]
+		}
+		fmt.Fprintf(&sb, "%q:%q", k, v)
+	}
+	sb.WriteByte('}')
+	return sb.String()
 }
 
 func copyMap(m map[string]string) map[string]string {
@@ -459,6 +520,45 @@ func (w *world) check(repo registry.Repository, raw oras.GraphTarget, phase stri
 	for i := range w.recs {
 		byDigest[w.recs[i].Manifest.Digest] = &w.recs[i]
 	}
+	// every listed descriptor describes the stored manifest bytes; its annotations are absent or exactly
+	// those of that very manifest; two listed descriptors never share one annotations map.
+	judgeListed := func(label string, listed []ocispec.Descriptor) {
+		for i, d := range listed {
+			src := d
+			if rc := byDigest[d.Digest]; rc != nil {
+				src = rc.Manifest
+			}
+			mb, err := fetchRaw(raw, src)
+			if err != nil {
+				add("list/listed-manifest-not-in-store", "listing %s: manifest %s cannot be read from the store: %v", label, d.Digest, err)
+				continue
+			}
+			var m anyManifest
+			if err := json.Unmarshal(mb, &m); err != nil {
+				add("list/listed-manifest-not-json", "listing %s: manifest %s: %v", label, d.Digest, err)
+				continue
+			}
+			if digest.FromBytes(mb) != d.Digest || int64(len(mb)) != d.Size || m.MediaType != d.MediaType {
+				add("list/descriptor-differs-from-stored-manifest", "listing %s: descriptor %s/%d/%s, stored manifest %s/%d/%s", label, d.MediaType, d.Size, d.Digest, m.MediaType, len(mb), digest.FromBytes(mb))
+			}
+			switch {
+			case len(d.Annotations) == 0:
+				outcomes["listed descriptor annotations: absent"]++
+			case !mapsEqual(d.Annotations, m.Annotations):
+				add("list/descriptor-annotations-not-of-its-manifest", "listing %s: descriptor of %s carries annotations %s, its stored manifest has %s", label, d.Digest, showMap(d.Annotations), showMap(m.Annotations))
+			default:
+				outcomes["listed descriptor annotations: exactly those of its stored manifest"]++
+			}
+			for j := 0; j < i; j++ {
+				o := listed[j]
+				if o.Digest != d.Digest && o.Annotations != nil && d.Annotations != nil &&
+					reflect.ValueOf(o.Annotations).Pointer() == reflect.ValueOf(d.Annotations).Pointer() {
+					add("list/descriptors-alias-one-annotations-map", "listing %s: the descriptors of %s and %s share one annotations map object", label, o.Digest, d.Digest)
+					break
+				}
+			}
+		}
+	}
 	for si := 0; si < 3; si++ {
 		w.evals++
 		before := len(vs)
@@ -481,6 +581,7 @@ func (w *world) check(repo registry.Repository, raw oras.GraphTarget, phase stri
 		for _, d := range listed {
 			got[d.Digest]++
 		}
+		judgeListed(fmt.Sprintf("S%d", si+1), listed)
 		for _, d := range listed {
 			rc := byDigest[d.Digest]
 			if want[d.Digest] > 0 {
@@ -563,16 +664,6 @@ func (w *world) check(repo registry.Repository, raw oras.GraphTarget, phase stri
 					add("push/manifest-artifact-type-differs", "manifest %s of %q: config %+v", d.Digest, rc.Op, m.Config)
 				}
 			}
-			// not judged (the statement puts the annotations on the manifest): does the listed descriptor carry them?
-			carried := true
-			for k, v := range rc.Ann {
-				if d.Annotations[k] != v {
-					carried = false
-				}
-			}
-			if len(rc.Ann) > 0 {
-				outcomes[fmt.Sprintf("listed descriptor carries the pushed annotations: %v (not judged)", carried)]++
-			}
 		}
 	}
 	// S1': a descriptor that shares fields with S1 and is no artifact of the store. The statement
@@ -590,6 +681,7 @@ func (w *world) check(repo registry.Repository, raw oras.GraphTarget, phase stri
 			continue
 		}
 		own := 0
+		judgeListed(label, listed)
 		for _, d := range listed {
 			rc := byDigest[d.Digest]
 			switch {
@@ -1064,6 +1156,22 @@ func runHostile(c hostileCase) (vs []viol, outcome string, evals int, infra erro
 	if err := pushRaw(inner, md, mb); err != nil {
 		return nil, "", 0, err
 	}
+	if c.Special != "" {
+		// a well-formed signature of S1 next to it, so that the listing decodes both manifests
+		cb := []byte("companion-env-" + c.Name)
+		cd := descOf(mtCOSE, cb)
+		cfg, err := pushNotationConfig(inner, typeNotation)
+		if err != nil {
+			return nil, "", 0, err
+		}
+		if err := pushRaw(inner, cd, cb); err != nil {
+			return nil, "", 0, err
+		}
+		cm, _ := json.Marshal(imageManifest{SchemaVersion: 2, MediaType: mtImage, Config: cfg, Layers: []ocispec.Descriptor{cd}, Subject: &subj[0], Annotations: map[string]string{"companion": "1"}})
+		if err := pushRaw(inner, descOf(mtImage, cm), cm); err != nil {
+			return nil, "", 0, err
+		}
+	}
 	hand := md
 	if c.DeclManifest == "over" {
 		hand.Size = capManifest + 1
@@ -1281,6 +1389,8 @@ func main() {
 		"the manifest creation time annotation added by oras-go is not judged; pushed annotations must be contained in the stored manifest's annotations",
 		"listing a descriptor that shares only fields with S1 (S1') is judged only for not yielding S1's manifests",
 		"store kind 'loose' = oras memory store behind a GraphTarget whose Predecessors answers by digest only",
+		"store kind 'paged' = oras memory store behind a GraphTarget that offers the referrers API itself (oras-go's registry.Referrers) and delivers one descriptor per callback page",
+		"a listed descriptor's annotations may be absent; when present they must equal the stored manifest's annotations exactly",
 		"a layout that oras-go refuses to open (referrer whose subject has a real digest and a wrong size) is recorded, not judged",
 	}
 	if r.Replay != "" {
@@ -1301,6 +1411,7 @@ func main() {
 	}
 	explore(r, "memory", dMem)
 	explore(r, "loose", dLoose)
+	explore(r, "paged", 3)
 	explore(r, "disk", dDisk)
 	exploreFrontier(r, "memory", fLo, fHi)
 	if r.Thorough() {
